@@ -43,6 +43,7 @@ Raws == {Raw(0, {}), Raw(1, {0}), Raw(63, {0, 62}), Raw(64, {63}), Raw(65, {0, 6
 Ints == {IntV(1, << >>), IntV(64, << >>), IntV(1, <<{0}, {}, {0}>>), IntV(7, <<{0, 6}, {1}>>), IntV(64, <<All64, {}>>), IntV(13, <<{12}, {0}, {5}, {1, 2}, {12, 0}>>)}
 BVs == {BV(0, {}, << >>)} \cup {BV(3, {1}, s) : s \in Sups} \cup {BV(65, {0, 63, 64}, s) : s \in {<< >>, <<"rank", "select", "select_zero">>}}
        \cup {BV(600, {5, 511, 512, 599}, s) : s \in {<<"rank">>, <<"select_zero">>}}
+       \cup {BV(512, {0, 511}, <<"rank">>), BV(1024, {3, 1023}, <<"rank", "select", "select_zero">>)}      \* exact multiples of the rank block size
 Compressed == {SP(0, {}), SP(10, {1, 5}), SP(100, {0, 99}), SP(8, 0..7), RL(0, {}), RL(10, {1, 5}), RL(100, {0, 1, 2, 50, 99}), RL(7, 0..6)}
 Wavelets == {WMC(<< >>), WMC(<<1>>), WMC(<<1, 0, 3, 1>>), WM(<< >>), WM(<<0>>), WM(<<1, 0, 3, 1, 7>>),
              WMC64(<<All64, {63}, {}, {0, 63}>>), WMC64(<<{62}, {1}>>)}
